@@ -1,18 +1,39 @@
 #!/usr/bin/env python3
 """Warm the dependency build caches (.cache/kani-target, .cache/replay-target). Framework output only;
-the crate itself is rebuilt from a fresh snapshot of /repo on every check."""
+the crate itself is rebuilt from a fresh snapshot of /repo on every check. Failures here are not
+fatal: the checks build what they need themselves (just slower the first time)."""
 import os, sys
 sys.path.insert(0, os.path.dirname(os.path.abspath(__file__)))
-import common, kani_leg
-s = common.snapshot("warm")
+import common, kani_leg, native_leg
 try:
-    g = kani_leg.load_group("k4_ints")
-    kani_leg.inject(s, [g], replay=(g, "c15_u8", [[1], [1], [1]]))
-    env = common.offline_env({"CARGO_TARGET_DIR": common.KANI_TARGET})
-    rc, out, err, w = common.run(["cargo", "kani", "-Z", "function-contracts", "-Z", "stubbing", "--only-codegen"], cwd=s, env=env, timeout=1800)
-    print("kani warm rc=%s %.0fs" % (rc, w)); 
-    if rc != 0: print(err[-2000:])
-    ok, tail, rc = kani_leg.native_replay(s, g, "c15_u8", [[1], [1], [1]])
-    print("replay warm rc=%s" % rc)
-finally:
-    common.cleanup(s)
+    s = common.snapshot("warm-kani")
+    try:
+        g = kani_leg.load_group("k4_ints")
+        kani_leg.inject(s, [g])
+        r = kani_leg.run_harnesses(s, [(g, ["c15_u8"])], jobs=2, timeout=2400, label="warm")
+        print("kani cache warm: %.0fs" % r["wall_s"])
+    finally:
+        common.cleanup(s)
+except Exception as e:  # noqa
+    print("kani warm-up skipped:", str(e)[-400:])
+try:
+    s = common.snapshot("warm-native")
+    try:
+        g = native_leg.load("w_server")
+        r = native_leg.run_group(s, g, only=["w_c14_counts"], timeout=2400)
+        print("native cache warm: %.0fs" % r["wall_s"])
+    finally:
+        common.cleanup(s)
+except Exception as e:  # noqa
+    print("native warm-up skipped:", str(e)[-400:])
+try:
+    s = common.snapshot("warm-replay")
+    try:
+        g = kani_leg.load_group("k4_ints")
+        kani_leg.inject(s, [g], replay=(g, "c15_u8", [[1], [1], [1]]))
+        ok, tail, rc = kani_leg.native_replay(s, g, "c15_u8", [[1], [1], [1]])
+        print("replay cache warm rc=%s" % rc)
+    finally:
+        common.cleanup(s)
+except Exception as e:  # noqa
+    print("replay warm-up skipped:", str(e)[-400:])
